@@ -196,7 +196,7 @@ type chunked struct {
 	data []byte
 	pos  int
 	rng  *hc.RNG
-	mode int
+	mode int // 0: random chunks, 1: one byte, 2: as much as asked; +4: the last bytes come together with io.EOF
 }
 
 func (c *chunked) Read(p []byte) (int, error) {
@@ -207,7 +207,7 @@ func (c *chunked) Read(p []byte) (int, error) {
 		return 0, io.EOF
 	}
 	n := len(p)
-	switch c.mode {
+	switch c.mode & 3 {
 	case 0:
 		n = 1 + c.rng.Intn(hc.Pick(c.rng, 1, 3, 5, 64, 4096, 70000))
 	case 1:
@@ -216,6 +216,9 @@ func (c *chunked) Read(p []byte) (int, error) {
 	n = min(n, len(p), len(c.data)-c.pos)
 	copy(p, c.data[c.pos:c.pos+n])
 	c.pos += n
+	if c.mode&4 != 0 && c.pos == len(c.data) {
+		return n, io.EOF // allowed by the io.Reader contract
+	}
 	return n, nil
 }
 
@@ -368,7 +371,7 @@ func run(c *hc.Ctx) error {
 			fail(c, "wire-malformed", line, "the bytes written are not a sequence of whole TLS records (a length field does not match its data)")
 		}
 		// monitor b: a FakeTLS peer reads back exactly the written bytes, for any read sizes
-		peer := faketls.NewFakeTLS(r, &rw{in: &chunked{data: wire, rng: r.Fork(), mode: r.Intn(3)}})
+		peer := faketls.NewFakeTLS(r, &rw{in: &chunked{data: wire, rng: r.Fork(), mode: r.Intn(3) + 4*r.Intn(2)}})
 		var got []byte
 		var rerr error
 		for len(got) <= len(want)+16 {
@@ -423,7 +426,7 @@ func run(c *hc.Ctx) error {
 		}
 		var ks []string
 		var outs []string
-		peer := faketls.NewFakeTLS(r, &rw{in: &chunked{data: wire, rng: r.Fork(), mode: r.Intn(3)}})
+		peer := faketls.NewFakeTLS(r, &rw{in: &chunked{data: wire, rng: r.Fork(), mode: r.Intn(3) + 4*r.Intn(2)}})
 		for j := 0; j < 8; j++ {
 			k := hc.Pick(r, 0, 1, 2, 3, 8, 64)
 			ks = append(ks, strconv.Itoa(k))
@@ -514,7 +517,7 @@ func run(c *hc.Ctx) error {
 			stream = stream[:r.Intn(len(stream))]
 			kind = "truncated"
 		}
-		rd := &chunked{data: stream, rng: r.Fork(), mode: r.Intn(3)}
+		rd := &chunked{data: stream, rng: r.Fork(), mode: r.Intn(3) + 4*r.Intn(2)}
 		err := faketls.VerifC19ReadServerHello(rd, random, secret)
 		line := fmt.Sprintf("shello %s %s %s", hc.Hex(random[:]), hc.Hex(secret), hc.Hex(stream))
 		c.Eval(line, true)
@@ -585,7 +588,7 @@ func run(c *hc.Ctx) error {
 	for i := 0; i < c.N(30, 600); i++ {
 		secret := r.Bytes(16)
 		good := r.Chance(50)
-		conn := &scripted{rng: r.Fork(), secret: secret, good: good, mode: r.Intn(3)}
+		conn := &scripted{rng: r.Fork(), secret: secret, good: good, mode: r.Intn(3) + 4*r.Intn(2)}
 		ft := faketls.NewFakeTLS(r, conn)
 		err := ft.Handshake([4]byte{0xdd, 0xdd, 0xdd, 0xdd}, 2, mtproxy.Secret{Secret: secret, Tag: 0xdd, CloakHost: "example.org", Type: mtproxy.TLS})
 		sig := fmt.Sprintf("handshake case=%d good=%v", i, good)
